@@ -32,6 +32,8 @@ type ProcRecord struct {
 	Finished           bool                       `json:"finished"`
 	Killed             bool                       `json:"killed"`
 	KilledAt           int64                      `json:"killed_at_ns,omitempty"`
+	Died               string                     `json:"died_by_signal,omitempty"` // killed by somebody else (the OOM killer, an operator), not by the parent
+	Execution          int                        `json:"execution,omitempty"`      // 1 = the first time this executable was started in this part of the world, 2 = the second ...
 	StdinLen           int                        `json:"stdin_len"`
 	StdinRead          int                        `json:"stdin_read"`
 	OutBytes           int                        `json:"out_bytes"`
@@ -134,6 +136,18 @@ func (p *Proc) Note(k string, v interface{}) {
 	p.rec.Notes[k] = b
 }
 
+// Execution: 1 for the first start of this executable, 2 for the second ...
+func (p *Proc) Execution() int { return p.rec.Execution }
+
+// Die ends the child at once as a signal sent by somebody else would (the OOM killer, an operator):
+// the parent's Wait reports "signal: <name>", exit code -1; the parent did not kill it.
+func (p *Proc) Die(sig string) {
+	p.rec.Died = sig
+	p.w.logEvent("died", p.t.id+" "+sig)
+	Hit("proc.died-by-foreign-signal")
+	runtime.Goexit()
+}
+
 func (p *Proc) kill() {
 	if p.done || p.rec.Killed {
 		return
@@ -152,7 +166,7 @@ func (p *Proc) finished() {
 		p.rec.StdinLen = len(p.stdin)
 	}
 	p.rec.End = p.w.now
-	if p.rec.Killed {
+	if p.rec.Killed || p.rec.Died != "" {
 		p.rec.Exit = -1
 	} else {
 		p.rec.Finished = true
@@ -389,6 +403,12 @@ func (c *Cmd) Start() error {
 	}
 	p := &Proc{w: w, cmd: c}
 	p.rec.Path, p.rec.Args, p.rec.Start = ap, c.Args, w.now
+	p.rec.Execution = 1
+	for _, q := range w.procs {
+		if q.rec.Path == ap {
+			p.rec.Execution++
+		}
+	}
 	if c.Stdin != nil {
 		// os/exec copies the reader into the pipe in a goroutine of its own and ignores EPIPE:
 		// modelled as "all of it is available, then EOF"
@@ -453,6 +473,10 @@ func (c *Cmd) Wait() error {
 		}
 		pp.rdClosed = true
 		pp.wake()
+	}
+	if p.rec.Died != "" && !p.rec.Killed {
+		c.ProcessState.signal = p.rec.Died
+		return &ExitError{Code: -1, Signal: p.rec.Died}
 	}
 	if p.rec.Killed {
 		c.ProcessState.signal = "killed"
